@@ -13,8 +13,8 @@ pub const SPEC: PropSpec = PropSpec {
     id: "C14",
     level: "exploration",
     rule: "Cases = (UTF-8 document not declaring another encoding, owned target type, cut set). Documents: serializations of generated family values (36 serializer configurations), their token-level mutants (so that error paths, unknown-field skipping, look-ahead, xsi:nil, CDATA/text merging, DOCTYPE are reached), truncations and token soup. For each case from_str::<T>(doc) is compared with from_reader::<_, T>(ChunkedRead) for piece sizes 1, 2, 3, 7, whole and 3 random cut sets (first piece >= 4 bytes for BOM inputs): both must fail, or both succeed with equal values. The overlapped-lists replay buffer is active. Non-trivial = the document contains at least one start tag and at least one cut.",
-    assumptions: &["ChunkedRead implements BufRead correctly", "error values are not compared, only Ok/Err agreement and equality of Ok values"],
-    required: &["agree.ok", "agree.err", "docs.unknown_element", "docs.xsi_nil", "docs.cdata", "docs.doctype", "docs.mutated", "docs.valid", "targets_seen_all", "cutsets"],
+    assumptions: &["ChunkedRead implements BufRead correctly", "error values are not compared, only Ok/Err agreement and equality of Ok values", "for inputs that start with a byte-order mark the first piece has at least 4 bytes: the reader documents that the BOM / encoding sniff looks at the first piece only (the exception C02 states)"],
+    required: &["agree.ok", "agree.err", "docs.unknown_element", "docs.xsi_nil", "docs.xsi_nil_after_skipped_element_declaring_xsi", "docs.cdata", "docs.doctype", "docs.mutated", "docs.valid", "targets_seen_all", "cutsets"],
     run,
     replay,
     thorough_layers: &[],
@@ -35,6 +35,7 @@ struct Local {
     err: u64,
     unknown: u64,
     nil: u64,
+    scope_probe: u64,
     cdata: u64,
     doctype: u64,
     mutated: u64,
@@ -83,6 +84,9 @@ fn run_doc(ctx: &mut Ctx, loc: &mut Local, all: &[TypeOps], doc: &str, own: usiz
     }
     if doc.contains("xsi:nil") {
         loc.nil += 1;
+        if doc.contains("<unknown xmlns:xsi=") || doc.contains("<unknown><v xmlns:xsi=") {
+            loc.scope_probe += 1;
+        }
     }
     if doc.contains("<![CDATA[") {
         loc.cdata += 1;
@@ -178,6 +182,7 @@ fn run(ctx: &mut Ctx) {
     ctx.add("agree.err", loc.err);
     ctx.add("docs.unknown_element", loc.unknown);
     ctx.add("docs.xsi_nil", loc.nil);
+    ctx.add("docs.xsi_nil_after_skipped_element_declaring_xsi", loc.scope_probe);
     ctx.add("docs.cdata", loc.cdata);
     ctx.add("docs.doctype", loc.doctype);
     ctx.add("docs.mutated", loc.mutated);
